@@ -1,14 +1,16 @@
 """C09 - special functions are accurate over their whole finite range (DESIGN 4/C09; weakest claim of the set)."""
 LEVEL = "exploration"
 TECHNIQUE = "TLA+ acceptance predicates (TLC trace validation) over error observations at mpmath reference-table points; exact factorial / harmonic-number / integer-beta identities computed by TLC on big naturals and replayed"
-RULE = ("P2: TLC computes n! for n = 0..170 on big naturals, H_n for n = 1..20 in rationals and the factorials of B(a,b) for integer a, b "
-        "up to 80; the harness compares gamma(n+1), digamma(n+1) - digamma(1) and beta(a,b) (both argument orders) with them at the "
-        "property's tolerances; P3: gamma at 2150 reference points (every odd multiple of 1/32 selected over (-170, 171.6), all "
-        "integers and half-integers, 2^-e), digamma at 207 points in (1e-3, 1e6), erf at 490 points in +-6 and the tails: relative "
-        "error (gamma scaled by the distance to the nearest pole), finite wherever the true value is a finite normal f64, erf "
-        "odd / bounded / within 1.5e-7; identity observations Gamma(x+1) = x Gamma(x) on 760 grid points, psi(x+1) = psi(x) + 1/x, "
-        "B(a,b) = B(b,a) = Gamma(a)Gamma(b)/Gamma(a+b) on an 11 x 11 grid; all validated by TLC (Trace_SpecialFn). "
-        "Distinct non-trivial cases = (function, region) classes; evaluations = table points + identity points.")
+RULE = ("P2: TLC computes n! for n = 0..170 on big naturals, H_n for n = 1..20 in rationals and the factorials of "
+        "B(a,b) for integer a, b up to 80; the harness compares gamma(n+1), digamma(n+1) - digamma(1) and beta(a,b) "
+        "(both argument orders) with them at the property's tolerances; P3: gamma at 2150 reference points (every odd "
+        "multiple of 1/32 selected over (-170, 171.6), all integers and half-integers, 2^-e), digamma at 207 points in "
+        "(1e-3, 1e6), erf at 490 points in +-6 and the tails and at eleven arguments between 40 and the infinities that"
+        " are not f32 numbers (true value 1 to hundreds of digits): relative error (gamma scaled by the distance to the"
+        " nearest pole), finite wherever the true value is a finite normal f64, erf odd / bounded / within 1.5e-7; "
+        "identity observations Gamma(x+1) = x Gamma(x) on 760 grid points, psi(x+1) = psi(x) + 1/x, B(a,b) = B(b,a) = "
+        "Gamma(a)Gamma(b)/Gamma(a+b) on an 11 x 11 grid; all validated by TLC (Trace_SpecialFn). Distinct non-trivial "
+        "cases = (function, region) classes; evaluations = table points + identity points.")
 ASSUMPTIONS = ["reference values: mpmath 1.3 at 50 digits (tools/gen_reftables.py, outputs committed under spec/ref/); the relative-error observation is computed by the harness from the table value",
                "the dense sweep over every f32 argument is NOT performed: accuracy between table points is constrained only by the recurrence identities"]
 TRUSTED = ("mpmath reference tables", "harness error observations (src/c09.rs)")
